@@ -9,6 +9,8 @@
 (* <<1,0>>) or fixed-point integers round(v * 2^16) for relational clauses *)
 (* (suffix q).  Kinds (field k):                                           *)
 (*   prox    p = f.proximal(sig)(x); probes z with f_real(z), F(z), F(p)   *)
+(*   probe   the same for a functional outside the catalogue (literal       *)
+(*           clauses only)                                                 *)
 (*   pair    two proximal calls of one operator (firm non-expansiveness)   *)
 (*   fy      f(x), f.convex_conj(y), x.inner(y)                            *)
 (*   biconj  f(x), f.convex_conj.convex_conj(x)                            *)
@@ -50,6 +52,13 @@ ProxClauses(e) ==
          THEN {"value"} ELSE {}) \cup
       \* indicator functionals: lands in the set (f(p) = 0) and idempotent
       (IF q /\ IsIndicator(e.f) /\ e.finite = 1 /\ e.idemq > e.slackq THEN {"indicator-prox-not-idempotent"} ELSE {})
+
+\* a functional outside the catalogue: only what the implementation's own numbers say
+ProbeClauses(e) ==
+  (IF e.finite = 0 THEN {"f(p)-not-finite"} ELSE {}) \cup
+  (IF e.finite = 1 /\ \E j \in 1..Len(e.probes) : e.probes[j].fin = 1 /\ e.probes[j].Fq < e.Fpq - e.slackq
+     THEN {"probe-has-smaller-objective"} ELSE {}) \cup
+  (IF e.isind = 1 /\ e.finite = 1 /\ e.idemq > e.slackq THEN {"indicator-prox-not-idempotent"} ELSE {})
 
 PairClauses(e) ==
   (IF e.lhsq > e.rhsq + e.slackq THEN {"not-firmly-nonexpansive"} ELSE {}) \cup
@@ -98,13 +107,18 @@ LipClauses(e) ==
   (IF e.lhsq > e.rhsq + e.slackq THEN {"lipschitz-bound(q)"} ELSE {})
 
 \* central differences of a smooth non-polynomial functional: e(h/2) <= e(h)/3 + floor
-CdClauses(e) == IF 3 * e.e2q > e.e1q + 3 * e.floorq THEN {"central-difference-convergence"} ELSE {}
+\* (only where the specification says the segment x +- d/64 stays inside one smooth piece; opaque = 1: a
+\* smooth functional outside the catalogue)
+CdClauses(e) ==
+  IF (IF e.opaque = 1 THEN TRUE ELSE SmoothAlong(e.sp, e.f, e.x, e.d, Q(1, 64))) /\ 3 * e.e2q > e.e1q + 3 * e.floorq
+    THEN {"central-difference-convergence"} ELSE {}
 
 ValueClauses(e) ==
   IF e.fx # NaN /\ ValueBad(e.fx, QValue(Entry(e.sp, e.f, 0), e.x)) THEN {"value"} ELSE {}
 
 Clauses(e) ==
   CASE e.k = "prox"   -> ProxClauses(e)
+    [] e.k = "probe"  -> ProbeClauses(e)
     [] e.k = "pair"   -> PairClauses(e)
     [] e.k = "fy"     -> FYClauses(e)
     [] e.k = "biconj" -> BiconjClauses(e)
